@@ -49,7 +49,11 @@ func (m *Machine) intrinsic(fn *ssa.Function) (intrinsicFn, bool) {
 	}
 	var f intrinsicFn
 	name := fn.String()
-	if fn.Synthetic == "package initializer" {
+	if m.stubSet[name] {
+		f = func(m *Machine, _ *frame, fn *ssa.Function, _ []Value) (Value, bool) {
+			return m.zeroResults(fn), true
+		}
+	} else if fn.Synthetic == "package initializer" {
 		if !pkgInitAllowed(fn.Pkg.Pkg.Path()) {
 			f = func(m *Machine, _ *frame, fn *ssa.Function, _ []Value) (Value, bool) {
 				m.inited[fn.Pkg] = true
